@@ -44,6 +44,7 @@ type queryRec struct {
 	Knn    [][]int64 `json:"knn"`    // aligned with ks
 	Within [][]int64 `json:"within"` // aligned with rs
 	Inbox  bool      `json:"inbox"`
+	Exact  bool      `json:"exact"` // spec: all distances the query can meet are integers
 }
 
 // only restricts a case to one variant; it is set in failure cases so that a
@@ -66,6 +67,7 @@ type histCase struct {
 	Box     [][]int64    `json:"box"`
 	Ks      []int64      `json:"ks"`
 	Rs      []int64      `json:"rs"`
+	Rsq     []bool       `json:"rsq"` // spec: rs[i] is a perfect square
 	Qs      []queryRec   `json:"qs"`
 	Only    *only        `json:"only,omitempty"`
 }
@@ -215,7 +217,7 @@ type cd struct {
 
 // checkSet compares a returned (point, distance) list with the spec's sorted
 // distance multiset want, the per point distances ds and the stored multiset.
-func (ck *checker) checkSet(routine string, q *queryRec, got []cd, want []int64, label string, param int64, r2 int64) {
+func (ck *checker) checkSet(routine string, q *queryRec, got []cd, want []int64, label string, param int64, r2 int64, rExact bool) {
 	if !ck.mismatch(q, got, want) {
 		return
 	}
@@ -243,7 +245,14 @@ func (ck *checker) checkSet(routine string, q *queryRec, got []cd, want []int64,
 			}
 		}
 		if boundary {
-			ck.fail(routine, "boundary-point-lost", fmt.Sprintf("%s q=%v: got distances %v, spec says (squared) %v: %d stored point(s) at exactly the query radius are missing", what, q.Q, dists(got), want, len(want)-len(got)))
+			// The spec says whether every distance involved is an integer (exact in floating
+			// point). Only when an irrational square root takes part can a one-ulp rounding of
+			// the triangle-inequality prune explain the loss.
+			kind := "boundary-point-lost-inexact"
+			if q.Exact && rExact {
+				kind = "boundary-point-lost"
+			}
+			ck.fail(routine, kind, fmt.Sprintf("%s q=%v: got distances %v, spec says (squared) %v: %d stored point(s) at exactly the query radius are missing", what, q.Q, dists(got), want, len(want)-len(got)))
 			return
 		}
 	}
@@ -450,7 +459,7 @@ func (ck *checker) runKd(kk *kdKind, rng *rand.Rand) {
 			} else if np == nil {
 				ck.fail("Nearest", "nil-point", fmt.Sprintf("q=%v: Nearest returned nil point, distance %v; spec says %v", q.Q, nd, q.Near))
 			} else {
-				ck.checkSet("Nearest", q, []cd{{kk.coords(np), nd}}, q.Near, "Nearest", 0, -1)
+				ck.checkSet("Nearest", q, []cd{{kk.coords(np), nd}}, q.Near, "Nearest", 0, -1, false)
 			}
 		}
 		// k nearest
@@ -465,7 +474,7 @@ func (ck *checker) runKd(kk *kdKind, rng *rand.Rand) {
 						got = append(got, cd{kk.coords(e.Comparable), e.Dist})
 					}
 				}
-				ck.checkSet("NearestSet(NKeeper)", q, got, q.Knn[i], "k=", k, -1)
+				ck.checkSet("NearestSet(NKeeper)", q, got, q.Knn[i], "k=", k, -1, false)
 			}
 		}
 		// within radius (closed ball)
@@ -480,7 +489,7 @@ func (ck *checker) runKd(kk *kdKind, rng *rand.Rand) {
 						got = append(got, cd{kk.coords(e.Comparable), e.Dist})
 					}
 				}
-				ck.checkSet("NearestSet(DistKeeper)", q, got, q.Within[i], "r2=", r, r)
+				ck.checkSet("NearestSet(DistKeeper)", q, got, q.Within[i], "r2=", r, r, i < len(c.Rsq) && c.Rsq[i])
 			}
 		}
 		// Contains: without recorded bounds always true (documented); with
@@ -584,19 +593,19 @@ func (ck *checker) runVp(effort int, src rand.Source) {
 			} else if np == nil {
 				ck.fail("Nearest", "nil-point", fmt.Sprintf("q=%v: Nearest returned nil point, distance %v; spec says %v", q.Q, nd, q.Near))
 			} else {
-				ck.checkSet("Nearest", q, []cd{{[]float64(np.(vptree.Point)), nd}}, q.Near, "Nearest", 0, -1)
+				ck.checkSet("Nearest", q, []cd{{[]float64(np.(vptree.Point)), nd}}, q.Near, "Nearest", 0, -1, false)
 			}
 		}
 		for i, k := range c.Ks {
 			var keep *vptree.NKeeper
 			if ck.call("NearestSet", func() { keep = vptree.NewNKeeper(int(k)); t.NearestSet(keep, qp) }) {
-				ck.checkSet("NearestSet(NKeeper)", q, conv(keep.Heap), q.Knn[i], "k=", k, -1)
+				ck.checkSet("NearestSet(NKeeper)", q, conv(keep.Heap), q.Knn[i], "k=", k, -1, false)
 			}
 		}
 		for i, r := range c.Rs {
 			var keep *vptree.DistKeeper
 			if ck.call("NearestSet", func() { keep = vptree.NewDistKeeper(ck.dist(r)); t.NearestSet(keep, qp) }) {
-				ck.checkSet("NearestSet(DistKeeper)", q, conv(keep.Heap), q.Within[i], "r2=", r, r)
+				ck.checkSet("NearestSet(DistKeeper)", q, conv(keep.Heap), q.Within[i], "r2=", r, r, i < len(c.Rsq) && c.Rsq[i])
 			}
 		}
 	}
